@@ -94,12 +94,16 @@ def _r1_subtile(run, ev):
     raises = [e for e in r.events if e.kind == "raise" and id(e.node) in own]
     guard_ok = len(raises) == 1 and boolalg.equiv(boolalg.conj(raises[0].pc), sym.cmp("Lt", ("attr", d, "n"), ("attr", s, "n"))) is True
     verdict = None
-    if len(rets) == 2 and rets[1][1][0] == "call" and rets[1][1][1] == ("sym", "is_subtile"):
-        # recursive form
-        ok = boolalg.equiv(rets[0][1], eq) is True and rets[1][1] == rec
-        if ok:
-            c0 = boolalg.conj([c for c in rets[0][0] if c[0] != "loop" and c[0] != raises[0].pc[-1][0]] if raises else rets[0][0])
-            ok = boolalg.equiv(c0, sym.cmp("Eq", ("attr", d, "n"), ("attr", s, "n"))) is True
+    rec_rets = [(pc, t) for pc, t in rets if t[0] == "call" and t[1] == ("sym", "is_subtile")]
+    eq_rets = [(pc, t) for pc, t in rets if not (t[0] == "call" and t[1] == ("sym", "is_subtile"))]
+    if len(rec_rets) == 1 and len(eq_rets) == 1:
+        # recursive form, in any statement order / polarity: under "deeper is not shallower than shallower",
+        # same level -> compare x and y; otherwise -> the same question for the parent
+        not_shallower = ("op", "not", (sym.cmp("Lt", ("attr", d, "n"), ("attr", s, "n")),))
+        same_level = sym.cmp("Eq", ("attr", d, "n"), ("attr", s, "n"))
+        ok = boolalg.equiv(eq_rets[0][1], eq) is True and rec_rets[0][1] == rec
+        ok = ok and boolalg.equiv(boolalg.conj(eq_rets[0][0]), same_level, given=not_shallower) is True
+        ok = ok and boolalg.equiv(boolalg.conj(rec_rets[0][0]), ("op", "not", (same_level,)), given=not_shallower) is True
         verdict = ok and guard_ok
     elif len(rets) == 1:
         # iterative form: cur = deeper; while cur.n != shallower.n: cur = parent(cur); return cur.x == s.x and cur.y == s.y
